@@ -8,7 +8,7 @@ from .facts import COUNTMIN, const_int, facts_of
 from .flow import Arr, ArrSlice, Bytes, Num, Opaque, Tup, cast_target, conjuncts, show_cond
 from .lin import Lin, show_lin
 from .model import resolve_temps, AnalysisError, Ty, call_name, dotted, self_attr, unparse, walk_no_nested
-from .rules_arith import (SUMMARIES, agg, fact_strs, group_by_node, hash_site, on_path, query_kernels, seed_is_row, src,
+from .rules_arith import (uncast_value, SUMMARIES, agg, fact_strs, group_by_node, hash_site, on_path, query_kernels, seed_is_row, src,
                           table_params, walk_kernel)
 
 # ---------------------------------------------------------------------------
@@ -540,6 +540,10 @@ def rule_logmerge_shape(ctx, rounding=True):
             raise AnalysisError("%s.merge: merge kernel not identified" % cname)
         k = ks[0]
         w = walk_kernel(F, k)
+        def _V(ev, w=w):
+            # the stored value with integer casts looked through (`cms[r, c] = uintN(clower)`, or a per-cell helper whose typed return
+            # truncates): which counter is stored is this rule's business, whether it fits the cell is rule range's
+            return uncast_value(w, ev.value)
         table = F.param_for(k, "cms")
         other = next((p for p, s in F.param_attr().get(k.key, {}).items() if "other.cms" in s), None)
         nr_p, mc_p, base_p = F.param_for(k, "num_reserved"), F.param_for(k, "max_count"), F.param_for(k, "base")
@@ -550,7 +554,12 @@ def rule_logmerge_shape(ctx, rounding=True):
         stores = [e for e in w.events if e.kind == "store" and e.arr.name == table]
         seen = set()
         for g in group_by_node(stores):
-            for e in g[:1]:
+            # one event per (store statement, stored value): a single `cms[r, c] = helper(...)` statement is reached once per case
+            first_of = {}
+            for e_ in g:
+                v_ = _V(e_)
+                first_of.setdefault(v_.lin.key() if isinstance(v_, Num) else id(e_), e_)
+            for e in (list(first_of.values()) if len(first_of) > 1 else g[:1]):
                 pre = [x for x in on_path(w.events, e) if x.loops == e.loops]
                 dec = [c for c in pre if c.kind == "call" and c.name == "_counter2value"]
                 if len(dec) < 2:
@@ -567,7 +576,7 @@ def rule_logmerge_shape(ctx, rounding=True):
                 okv = same and ((is_cell(d0.args[0], table) and is_cell(d1.args[0], other)) or (is_cell(d0.args[0], other) and is_cell(d1.args[0], table)))
                 V = d0.result.lin + d1.result.lin
                 conds = [cc for (_, _, cc) in e.path]
-                v = e.value
+                v = _V(e)
                 kind = None
                 if isinstance(v, Num) and v.lin.single_term() is not None and v.lin.single_term()[0] == "trunc":
                     # store of uintN(v): exact sum inside the reserved range
@@ -593,33 +602,57 @@ def rule_logmerge_shape(ctx, rounding=True):
                     ctx.ob("logmerge-shape", k, k.node, "%s: %s case" % (k.name, need), "three-way split reserved / ceiling / re-encode", False, "case missing")
             continue
         # re-encode: nearest of clower / clower+1
-        lows = [e for e in stores if isinstance(e.value, Num) and any(t[0] == "trunc" for t in e.value.lin.terms()) and e.value.lin.single_term() is None]
+        lows = [e for e in stores if isinstance(_V(e), Num) and any(t[0] == "trunc" for t in _V(e).lin.terms()) and _V(e).lin.single_term() is None]
         ups = {}
         for e in lows:
             # one store statement per candidate -- or a single `cms[r, c] = clower + offset` reached with offset 0 on one path and 1 on another
-            ups.setdefault((id(e.node), e.value.lin.key()), e)
+            ups.setdefault((id(e.node), _V(e).lin.key()), e)
         re_stores = list(ups.values())
         if len(re_stores) != 2:
             ctx.ob("logmerge-shape", k, k.node, "%s: re-encode stores" % k.name, "re-encoding chooses between two adjacent counters", False,
                    "found %d re-encode stores" % len(re_stores))
             continue
-        a, b = sorted(re_stores, key=lambda e: e.value.lin.k)
-        adj = (b.value.lin - a.value.lin) == Lin.const(1)
+        a, b = sorted(re_stores, key=lambda e: _V(e).lin.k)
+        adj = (_V(b).lin - _V(a).lin) == Lin.const(1)
         ctx.ob("logmerge-shape", k, a.node, "%s / %s" % (src(k, a.node, 40), src(k, b.node, 40)), "the two candidates are clower and clower + 1", adj)
         # clower = uintN(log((v - nr)*(base-1)+1)/log(base)) + nr   (inverse of the decoder)
         want = parse_nf("log((v - %s) * (%s - 1.0) + 1.0) / log(%s)" % (nr_p, base_p, base_p))
         # temporaries are resolved first (within one iteration every single-assignment local denotes its defining expression)
         found = False
         dec2 = "_counter2value"
-        for n in walk_no_nested(k.node):
-            if not (isinstance(n, ast.Assign) or isinstance(n, ast.AugAssign)):
-                continue
-            full = resolve_temps(k.node, n.value, allow_subscript=True, pure_only=False, in_loops=True)
+        # (the assignment may sit in a per-cell helper the kernel calls: those are searched too, their parameters read under the names
+        # of the kernel's arguments where the call passes plain names)
+        holders = [(k, {})]
+        seen_h = {k.key}
+        todo_h = [k]
+        while todo_h:
+            cur = todo_h.pop()
+            for c_ in F.calls_from(cur):
+                cal = c_.callee
+                if cal.is_kernel and cal.key not in seen_h and cal.module is k.module and cal.name != "_counter2value":
+                    seen_h.add(cal.key)
+                    ren = {p_: a_.id for p_, a_ in c_.argmap.items() if isinstance(a_, ast.Name)}
+                    holders.append((cal, ren))
+                    todo_h.append(cal)
+        cand_nodes = []
+        for fn_, ren in holders:
+            for n in walk_no_nested(fn_.node):
+                if isinstance(n, (ast.Assign, ast.AugAssign, ast.Return)) and n.value is not None:
+                    cand_nodes.append((fn_, ren, n))
+        for fn_, ren, n in cand_nodes:
+            full = resolve_temps(fn_.node, n.value, allow_subscript=True, pure_only=False, in_loops=True)
             try:
                 from .model import expand_expr
-                full2 = expand_expr(ctx.model, k, n.value)       # one-line helper kernels expanded as well
+                full2 = expand_expr(ctx.model, fn_, n.value)       # one-line helper kernels expanded as well
             except (AnalysisError, RecursionError):
                 full2 = None
+            if ren:
+                class _Ren(ast.NodeTransformer):
+                    def visit_Name(self, x, ren=ren):
+                        return ast.copy_location(ast.Name(id=ren[x.id], ctx=x.ctx), x) if x.id in ren else x
+                import copy as _copy
+                full = _Ren().visit(_copy.deepcopy(full))
+                full2 = _Ren().visit(_copy.deepcopy(full2)) if full2 is not None else None
             for sub in list(ast.walk(full)) + (list(ast.walk(full2)) if full2 is not None else []):
                 if not (isinstance(sub, ast.BinOp) and isinstance(sub.op, ast.Div)):
                     continue
@@ -637,10 +670,10 @@ def rule_logmerge_shape(ctx, rounding=True):
         ctx.ob("logmerge-shape", k, a.node, "cprime = log((v - num_reserved)*(base - 1) + 1) / log(base)",
                "re-encoding inverts the decoder's geometric sum", found, "" if found else "no assignment with that normal form")
         # clower = uintN(cprime) + num_reserved: the re-encoded counter is offset by the reserved range, like the decoder's
-        rest = a.value.lin - NR
+        rest = _V(a).lin - NR
         tt = rest.single_term()
         okk = tt is not None and tt[0] == "trunc" and rest == Lin.term(tt)
-        why = "" if okk else "the lower candidate is `%s`, not uintN(cprime) + num_reserved" % show_lin(a.value.lin)
+        why = "" if okk else "the lower candidate is `%s`, not uintN(cprime) + num_reserved" % show_lin(_V(a).lin)
         if okk:
             cst = [c for c in on_path(w.events, a) if c.kind == "cast" and c.fromfloat and isinstance(c.result, Num) and c.result.lin == rest]
             argt = cst[-1].arg.lin.single_term() if cst and isinstance(cst[-1].arg, Num) else None
@@ -654,7 +687,7 @@ def rule_logmerge_shape(ctx, rounding=True):
         why = "decode calls for the two candidates not found"
         if len(dec) >= 4:
             V = dec[0].result.lin + dec[1].result.lin
-            cl = a.value.lin
+            cl = _V(a).lin
             lo_c = [c for c in dec[2:] if isinstance(c.args[0], Num) and c.args[0].lin == cl]
             hi_c = [c for c in dec[2:] if isinstance(c.args[0], Num) and c.args[0].lin == cl + 1]
             if lo_c and hi_c:
